@@ -238,6 +238,7 @@ func PropC10(c *vs.Case, f Factory, kind string) error {
 	}
 	if useSelector {
 		scn.Cfg.ParentSelector = map[string]string{"enabled": "yes"}
+		scn.Cfg.SelAsExpressions = c.Bool()
 		metaOfMap(scn.Parent)["labels"] = map[string]any{"enabled": "yes"}
 	}
 	if c.Prob(1, 3) {
